@@ -107,6 +107,8 @@ Random(i) ==
         CASE kindU = 0 -> <<UC(coef(-1, 1), 0, -1 - (d[24] % 2), 1 + (d[25] % 3))>>   \* lo <= v4 - v1 <= hi
           [] kindU = 1 -> <<UC(coef(0, 1), -1, 0, 0)>>                                \* v4 = z
           [] kindU = 2 -> <<UC(coef(-1, 0), 0, -3 + (d[24] % 2), 1 - (d[25] % 3))>>   \* a bound on v1 as a row
+          \* the window of kind 0 written as TWO rows over the same expression (each binding on one side only)
+          [] kindU = 3 -> <<UC(coef(-1, 1), 0, -1 - (d[24] % 2), 20), UC(coef(-1, 1), 0, -20, 1 + (d[25] % 3))>>
           [] OTHER -> NoU,
         kindU = 1, IF kindU = 1 THEN <<-(d[26] % 3), 1 + (d[27] % 3)>> ELSE <<0, 0>>)
 
